@@ -97,6 +97,7 @@ func neverBeforeDeep(c *eng.Ctx, root *ssa.Function, first, then eng.Matcher, fn
 
 func runC01(c *eng.Ctx) {
 	p := c.P
+	replayReinstallsStoreLogs(c)
 
 	// ---- 1/2. flush commit ------------------------------------------------------------------------------------
 	c.Rule("ORDER", sfT+".Commit", func() {
